@@ -86,12 +86,21 @@ def build_zip(pkg):
 # ------------------------------------------------------------------------------------------ faults
 
 
+_DANGLING = ["NULL", "../nothing/here.xml", "/ppt/slides/NULL", "", ".", "missing/", "http://example.com/page", "mailto:x@y.z",
+             "file:///C:/a.pptx", "../../../../../up.xml", "a b/c%20d.xml", "?", "#frag"]
+_dangle_k = [0]
+
+
 def f_dangle(pkg, rng):
+    """a relationship whose target part is absent: a voided name, a path, nothing at all, something that looks like an
+    absolute URI although the relationship is internal, a path that climbs above the package root - every spelling is used
+    in every run (they are taken in turn, not sampled)"""
     srcs = [s for s in pkg["rels"]]
     if not srcs:
         return None
     s = rng.choice(srcs)
-    pkg["rels"][s] = pkg["rels"][s] + [("rId%d" % (900 + rng.randint(0, 99)), "http://example.com/rel/x", rng.choice(["NULL", "../nothing/here.xml", "/ppt/slides/NULL", "", "", ".", "missing/"]), False)]   # a voided target: a name, a path, or nothing at all
+    t = _DANGLING[_dangle_k[0] % len(_DANGLING)]; _dangle_k[0] += 1
+    pkg["rels"][s] = pkg["rels"][s] + [("rId%d" % (900 + rng.randint(0, 99)), "http://example.com/rel/x", t, False)]
     return f"dangle@{s}"
 
 
